@@ -119,7 +119,7 @@ def case_st(draw):
     if gen.chance(draw, 0.25, "c09-pre"):
         spec = case["cfg"]["breaker"]
         if spec.get("trip_on") != []:
-            spec["pre"] = draw(st.sampled_from(["half_open_ready", "open"]))
+            spec["pre"] = draw(st.sampled_from(["half_open_ready", "open", "probe_released"]))
     case["entry"] = draw(st.sampled_from(ENTRIES))
     if ".context." in case["entry"]:
         pass
